@@ -3,3 +3,7 @@ import signal_family
 CHECKS = {}
 for p in signal_family.PROPS:
     CHECKS[p] = signal_family.run
+
+import pool_family
+CHECKS["C10"] = pool_family.run
+CHECKS["C11"] = pool_family.run
